@@ -1,5 +1,5 @@
 (* C06 — property theorems only. *)
-From C06 Require Import Model Spec Proofs.
+From C06 Require Import Model Spec Proofs ProofsRef.
 
 (* (1) A function that is not destructive (list, cons, list*, cdr, nthcdr, member, last, butlast, subseq, copy-list,
    reverse, append, add, push, pop, remove/delete, mapcar, nconc as repaired) never changes any list other than
@@ -51,6 +51,59 @@ Theorem C06_fresh_result_alone : forall nv st o cap w t r,
   live (step st o cap) (dst_of o) = Some r -> live (step st o cap) w = Some t -> s_arr t <> s_arr r.
 Proof. exact fresh_result_alone. Qed.
 Print Assumptions C06_fresh_result_alone.
+
+(* (6) REFINEMENT of the cons-cell reference (Spec.v: a heap of cells with car and cdr, variables point to a
+   cell or are nil; tail selectors return the existing cell, every other function builds new cells, destructive
+   functions write the cars of their argument's own cells).  For every history of modelled operations from the
+   empty state that stays inside the guard (destination variable in range; no rplacd; no subseq of nil), for every
+   capacity the Go runtime picks at every allocation, and for every variable: the contents of the variable in the
+   slice model are exactly the contents of the variable in the reference machine run on the same operations. *)
+Theorem C06_refines_cons_model : forall nv ops w,
+  guard_ops nv (init nv) ops = true ->
+  vcontents (run_ops (init nv) ops) w = ccontents (crun (cinit nv) (map fst ops)) w.
+Proof. exact refines_cons_model. Qed.
+Print Assumptions C06_refines_cons_model.
+
+(* (6a) the simulation behind it: the relation Rel (every backing array stands for one chain of cells; a live
+   slice ends where the used part of its array ends and its variable points to the cell of its first position;
+   nil <-> nil) holds initially and is preserved by every guarded operation whatever capacity is chosen. *)
+Theorem C06_simulation_step : forall nv g st c o cap,
+  Rel nv g st c -> dst_of o < nv -> g_step st o = true -> exists g', Rel nv g' (step st o cap) (cstep c o).
+Proof. exact sim_step. Qed.
+Print Assumptions C06_simulation_step.
+Theorem C06_simulation_init : forall nv, Rel nv [] (init nv) (cinit nv).
+Proof. exact Rel_init. Qed.
+Print Assumptions C06_simulation_init.
+Theorem C06_simulation_contents : forall nv g st c, Rel nv g st c -> forall w, vcontents st w = ccontents c w.
+Proof. exact Rel_contents. Qed.
+Print Assumptions C06_simulation_contents.
+
+(* (6b) slices on one array <-> variables sharing a tail: in related states two live variables share a cons
+   cell of the reference exactly when their slices lie on the same backing array. *)
+Theorem C06_shares_iff_same_array : forall nv g st c v w s t,
+  Rel nv g st c -> live st v = Some s -> live st w = Some t -> (shares c v w = true <-> s_arr s = s_arr t).
+Proof. exact shares_iff_same_array. Qed.
+Print Assumptions C06_shares_iff_same_array.
+
+(* (6c) consequence: inside the guard the contents of every variable never depend on the capacities Go's
+   append and make happened to choose. *)
+Theorem C06_contents_capacity_independent : forall nv ops1 ops2 w,
+  map fst ops1 = map fst ops2 -> guard_ops nv (init nv) ops1 = true -> guard_ops nv (init nv) ops2 = true ->
+  vcontents (run_ops (init nv) ops1) w = vcontents (run_ops (init nv) ops2) w.
+Proof. exact contents_capacity_independent. Qed.
+Print Assumptions C06_contents_capacity_independent.
+
+(* (6d) outside the guard: rplacd (known finding).  The faithful model of pkg/cl/rplacd.go writes the new tail
+   over the old elements: x = (1 2 3 4), y = (cdr x), (rplacd x '(7)) leaves x = (1 7 3 4) and y = (7 3 4) where
+   the cons reference has x = (1 7) and y = (2 3 4); and whether rplacd changes its argument at all depends on
+   the spare capacity (x = (1 2), (rplacd x '(7 8 9)): x stays (1 2) with capacity 2, becomes (1 7) with 4). *)
+Theorem C06_rplacd_not_cons_refuted :
+  map (vcontents (run_ops (init 4) w_rplacd)) [0; 1; 2] = [[1; 7; 3; 4]; [7; 3; 4]; [1; 7]]%Z /\
+  map (ccontents (crun (cinit 4) (map fst w_rplacd))) [0; 1; 2] = [[1; 7]; [2; 3; 4]; [1; 7]]%Z /\
+  guard_ops 4 (init 4) w_rplacd = false /\
+  vcontents (run_ops (init 4) (w_rplacd_cap 2)) 0 = [1; 2]%Z /\ vcontents (run_ops (init 4) (w_rplacd_cap 4)) 0 = [1; 7]%Z.
+Proof. exact rplacd_not_cons_refuted. Qed.
+Print Assumptions C06_rplacd_not_cons_refuted.
 
 (* (7) the guard admits a history with tail sharing, destructive updates, add, nconc, nreverse, sort, and on it
    the slice model and the cons-cell reference agree on the contents of every variable after every step *)
